@@ -39,7 +39,7 @@ Next == /\ (MaxOps < 0 \/ n < MaxOps)
              /\ Allowed(st, o)
              /\ st' = NextOf(st, o)
              /\ act' = [op |-> o, ret |-> RetOf(st, o)]
-        /\ n' = n + 1
+        /\ n' = IF MaxOps < 0 THEN n ELSE n + 1    \* unbounded configs: n stays 0 (finite state space)
 
 Spec == Init /\ [][Next]_vars
 
